@@ -42,6 +42,9 @@ func registry() []PropSpec {
 				{Pkg: pkgCC, Func: "H11_q", Unwind: 10, HookLimit: 3, Note: "request completion and server-instance match inside runTestCasesForServer (shared with C11)"},
 				{Pkg: pkgCC, Func: "H05r_q", Unwind: 130, Recur: 12, Only: []string{ccp + "runTestCasesForServer=vModelRunBatch", ccp + "runClient=vModelRunClient", ccp + "runInProcess=vModelRunInProcess", ccp + "runCommand=vModelRunCommand", "golang.org/x/sync/semaphore.NewWeighted=vModelSemNew", "(*golang.org/x/sync/semaphore.Weighted).Acquire=vModelSemAcquire", "(*golang.org/x/sync/semaphore.Weighted).Release=vModelSemRelease"}, Note: "run() itself in server mode (reference client + gRPC reference client against one server command): one suite of 2 unary tests, 2 config cases (gRPC over HTTP/2, Connect over HTTP/1.1) = 2 server instances, --run and --skip each absent or one of 3 pattern sets (one of them matching only gRPC-peer names), --max-servers 1..2; processes cut away (scripted client, batch recorder, counting semaphore)"},
 			},
+			Thorough: []HarnessSpec{
+{Pkg: pkgCC, Func: "H05r_t", Unwind: 130, Recur: 12, JobSecs: 900, ExecSecs: 700, Only: []string{ccp + "runTestCasesForServer=vModelRunBatch", ccp + "runClient=vModelRunClient", ccp + "runInProcess=vModelRunInProcess", ccp + "runCommand=vModelRunCommand", "golang.org/x/sync/semaphore.NewWeighted=vModelSemNew", "(*golang.org/x/sync/semaphore.Weighted).Acquire=vModelSemAcquire", "(*golang.org/x/sync/semaphore.Weighted).Release=vModelSemRelease"}, Note: "as H05r_q with 3 tests per instance (10 permutations) and --max-servers 1..3"},
+			},
 			Stubs: []string{"Any.UnmarshalNew = table lookup (real Any natively)", "proto.Clone = field-wise copy", "see C11 for the batch harness", "H05r: runClient = scripted client, runTestCasesForServer = recorder that records its cases as setup failures (natively the real one, with a server command that does not exist), runInProcess / runCommand = no starter, x/sync semaphore = counter whose Acquire blocks for good when no slot is free"},
 			Out:   []string{"--max-servers bound under real concurrency, server lifetimes after SIGTERM, client death between batches, goroutine interleavings between batches (H05r runs each spawned batch to completion at the spawn point)"},
 		},
@@ -50,6 +53,7 @@ func registry() []PropSpec {
 			Quick: []HarnessSpec{
 				{Pkg: pkgCC, Func: "H07n_q", Unwind: 12, Note: "generateTestCasePrefix: suite with 0..2 entries per relevant list and TLS reliance, two symbolic config cases admitted by it: prefixes equal iff the cases are equal"},
 				{Pkg: pkgCC, Func: "H07d_q", Unwind: 8, UnwindFor: map[string]int{"vModelPathJoin": 12, "expandCases": 40, "expandSuite": 40, "populateExpectedResponses": 40, "groupTestCases": 40}, NoDedupe: true, Note: "a suite whose version / protocol / codec / compression list (one of them, symbolic) names its value twice, one unary test, one matching config case (TLS symbolic)"},
+				{Pkg: pkgCC, Func: "H07t_q", Unwind: 8, UnwindFor: map[string]int{"vModelPathJoin": 12, "expandCases": 40, "expandSuite": 40, "populateExpectedResponses": 40, "groupTestCases": 40}, NoDedupe: true, Note: "TLS markers: suite TLS / client-cert reliance symbolic, one unary test whose definition already carries a server certificate and / or client credentials (symbolic), one config case with symbolic TLS / client-cert use: markers and server instance are the config case's"},
 				{Pkg: pkgCC, Func: "H07a_q", Unwind: 8, UnwindFor: map[string]int{"vModelPathJoin": 12, "h07a": 400, "populateExpectedResponses": 400, "groupTestCases": 400}, JobSecs: 600, ExecSecs: 500, TimeoutMs: 120000, NoDedupe: true, FeasSecs: 5, Split: []SplitDim{{"s.nver", 0, 1}, {"s.nproto", 0, 1}, {"s.ncodec", 0, 1}, {"s.ncomp", 0, 1}, {"s.cvm", 0, 2}, {"s.mode", 0, 2}, {"mode", 1, 2}}, CaseNote: "case split: number of entries of each relevant list, Connect version mode, suite mode and run mode; list entries, reliance flags, test stream type and both config cases are symbolic", Note: "newTestCaseLibrary on one suite with symbolic directives (relevant HTTP versions / protocols / codecs / compressions 0..1 entry each, TLS / client-cert / GET / receive-limit reliance, Connect version mode, suite mode vs run mode), one test case of symbolic stream type, and one symbolic config case"},
 			},
 			Stubs: []string{"proto.Clone = field-wise copy", "path.Join on clean components, fmt.Sprintf of enum names abstracted (literal spelling of names is not checked)", "the 'all values' enum lists are bounded to two values per axis (natively too)", "map ranges without key de-duplication (maps observed as sets)"},
@@ -113,7 +117,7 @@ func registry() []PropSpec {
 			Quick: []HarnessSpec{
 				{Pkg: pkgRefServer, Func: "H17u_q", Unwind: 10, Note: "rawResponseRecorder.WrapUnary on a real connect.Request carrying a UnaryRequest or an IdempotentUnaryRequest, with or without a raw_response in its definition"},
 				{Pkg: pkgRefServer, Func: "H17c_q", Unwind: 10, Note: "rawResponseWriter: every sequence of <=4 operations from {Write, WriteHeader, Flush, setRawResponse}"},
-				{Pkg: pkgRefServer, Func: "H17d_q", Unwind: 10, Note: "rawResponseWriter.finish: status unset/201/503, 2 raw header values, 1 trailer, unary identity body of <=2 symbolic bytes, a handler-set header and a handler write that must not survive"},
+				{Pkg: pkgRefServer, Func: "H17d_q", Unwind: 10, Note: "rawResponseWriter.finish: status unset/201/503, 2 raw header values, 1 trailer, unary identity body of <=2 symbolic bytes, a handler-set header, a handler change (append / replace / none) to a middleware-set header and a handler write, none of which may survive"},
 				{Pkg: pkgInternal, Func: "H17a_q", Unwind: 12, UnwindFor: map[string]int{"h17a": 44}, Note: "WriteRawStreamContents/WriteRawMessageContents, identity compression: <=2 items, flags 0..300, explicit length any uint32 or computed, payload <=2 symbolic bytes or absent; destination is a recording WriteCloser"},
 				{Pkg: pkgInternal, Func: "H17t_q", Unwind: 12, Note: "AddHeaders / AddTrailers with 1..3 entries naming x-foo or X-Foo: one key, all values in the given order"},
 				{Pkg: pkgInternal, Func: "H17e_q", Unwind: 12, Only: []string{"connectrpc.com/conformance/internal/compression.GetCompressor=vModelGetCompressor"}, UnwindFor: map[string]int{"H17e_q": 44}, Note: "WriteRawMessageContents with per-item compression: compression 0..7 (unspecified, identity, 5 algorithms, unknown), data absent / binary / binary message / text, payload of 0..2 symbolic bytes; compressors are a framing model symbolically (header byte, payload, trailer byte on Close) and the real ones natively"},
@@ -175,12 +179,13 @@ func registry() []PropSpec {
 		{
 			ID: "C04",
 			Quick: []HarnessSpec{
+				{Pkg: pkgCC, Func: "H04r_q", Unwind: 40, Only: []string{ccp + "run=vModelRunStub", ccp + "parseConfig=vModelParseConfigStub", ccp + "parseTestSuites=vModelParseTestSuites", "connectrpc.com/conformance/internal/app/connectconformance/testsuites.LoadTestSuitesFromFiles=vModelLoadSuitesFromFiles"}, Note: "Run(): run() returns one case that could not be set up, with or without an error of its own (symbolic): verdict false, report printed once with the failing case named, the run's error printed iff there is one; natively the real Run() with a server command that does not exist and a client that exits with status 0 or 3"},
 				{Pkg: pkgCC, Func: "H04a_q", Unwind: 16, Note: "report(): <=2 named cases, each present or not, outcome in {pass, failure, could-not-run}, setup-error / known-failing / known-flaky flags, peer feedback present or not, 0..2 selected cases without any outcome"},
 			},
 			Thorough: []HarnessSpec{
 			},
 			Stubs: []string{"printer = recording stub (FAILED/INFO names, totals)", "indent() is the identity (message layout is not the subject)", "sync.Mutex/WaitGroup sequential"},
-			Out:   []string{"Run()/run() orchestration: the conjunction `report() && err == nil` and process handling are read off the source, not encoded", "HTTP trace printing"},
+			Out:   []string{"H04r: config parsing, suite loading and run() are stubs in the engine (real natively); Run()'s early-exit paths and a passing run through real peers are outside", "HTTP trace printing"},
 		},
 		{
 			ID: "C06",
